@@ -99,13 +99,42 @@ def run(ctx):
     fam["accepted_by_builtin_scalars_pruned"] = dict(sorted(pruned.items()))
     for c, i, m in acc[:: max(1, len(acc) // 4)]:
         ctx.sample({"tag": tag_of[c], "impl": i, "model": m}, limit=5)
+    # --- histories: validate; into_inner; add fields of built-in scalar types to an object type; validate again (twice):
+    # every Valid<Schema> reached on the way must be consistent (the prune/restore of built-in scalar definitions is
+    # where a re-validated schema could end up referencing a type that is not in `types`)
+    import itertools
+    SC = ["Int", "Float", "String", "Boolean", "ID"]
+    bases = []
+    for k in range(0, 6):
+        for used in itertools.combinations(SC, k):
+            fields = " ".join(f"f{i}: {t}" for i, t in enumerate(used)) or "self: Query"
+            bases.append(f"type Query {{ {fields} }}")
+            bases.append(f"type Query {{ q: T }} type T {{ {fields} }} input I {{ a: {used[0] if used else 'I'} }}")
+    hist = []
+    for b in bases:
+        for adds in ([], ["Int"], ["ID"], ["Float"], ["ID", "Float"], ["Int", "Float", "ID"], ["Float", "Float"], ["Nope"], ["Boolean", "String"]):
+            hist.append(f"{hexs(b)} Query {','.join(adds) or '-'}")
+    acc_src = [c.split(" ")[0] for c, _, _ in acc]
+    for h in acc_src[:: max(1, len(acc_src) // (150 if ctx.tier == "quick" else 1500))]:
+        for adds in (["ID"], ["Float", "Int"], ["Int", "Float", "ID"]):
+            hist.append(f"{h} Query {','.join(adds)}")
+    hist = sorted(set(hist))
+    hdesc = lambda c: f"add fields of types {c.split(' ')[2]} to {c.split(' ')[1]} after validation, validate again\n" + unhexs(c.split(" ")[0])
+    hrows = ctx.correspond(impl, model, "c15_hist", hist, compare=lambda i, m: True, describe=hdesc,
+                           nontrivial=lambda c, o: o.startswith("v=11"))
+    hf = ctx.cov["families"]["c15_hist"]
+    hf["valid_twice"] = sum(1 for _, i, _ in hrows if i.startswith("v=11"))
+    hf["second_validation_fails"] = sum(1 for _, i, _ in hrows if i.startswith("v=10"))
+    hf["note"] = "implementation-only oracle: consistent_impl on every Valid<Schema> of validate; into_inner; mutate; validate; validate"
     ctx.cov["rule"] = (
         "every case of the C14 generator (valid-by-construction schemas, rule-directed mutants, matrices, corner cases) "
         "plus schemas reached by hill-climbing: single and double mutants of the bases are repaired rule by rule (the "
         "repair is chosen from the specification's failing rule and prefers another way back into validity than undoing "
         "the mutation) until validation passes.  Non-trivial = accepted by Schema::parse_and_validate; for those the "
         "harness oracle consistent_impl evaluates every conjunct of Consistent and the built-in scalar sentence on the "
-        "real Valid<Schema>, and the model's booleans on the dumped schema must agree.")
+        "real Valid<Schema>, and the model's booleans on the dumped schema must agree.  c15_hist: every subset of the five built-in "
+        "scalars used by a base schema x 9 lists of field types added after a first validation, plus a sample of the accepted schemas: "
+        "consistent_impl on every Valid<Schema> reached by validate; into_inner; add fields; validate; validate.")
     ctx.cov["exhaustive"] = False
     ctx.assumptions += [
         "C15_valid_consistent is about the executable specification checker (Schema/Valid.v); that apollo-compiler accepts only what that checker accepts is what the C14 tie tests, and this tie re-checks the conclusion directly on every accepted schema",
@@ -118,6 +147,10 @@ def replay(ctx, path):
     r = json.load(open(path))
     model = build_model()
     impl = build_impl()
+    if r.get("family") == "c15_hist":
+        print("case :", r.get("case_readable", r["case"]))
+        print("impl :", run_family(impl, "c15_hist", [r["case"]])[0])
+        return 0
     src = describe(r["case"])
     c14.set_builtins(impl)
     h = hexs(src)
